@@ -10,6 +10,7 @@ CONSTANTS
   RawCap = 1
   WarmCap = 2
   Slack = {0}
+  FetchListens = TRUE
   DecListens = TRUE
 INVARIANT Converges
 INVARIANT HostileHarmless
